@@ -469,6 +469,16 @@ func ruleFloatPath(w *World, r *RuleResult) {
 			}
 		}
 		reachesParser := w.reachesFn("(*Decimal).setString")[f]
+		// every return lies behind the formatting call (no special-cased floats)
+		if ok {
+			for _, b := range f.Blocks {
+				if rt, isRet := b.Instrs[len(b.Instrs)-1].(*ssa.Return); isRet {
+					if !seenBefore(rt, func(in ssa.Instruction) bool { return in == ssa.Instruction(cs[0]) }) {
+						ok = false
+					}
+				}
+			}
+		}
 		if ok && reachesParser {
 			r.ok(key, w.pos(f.Pos()), "AppendFloat(buf, f, 'E', -1, 64) then the package parser", true)
 		} else {
